@@ -409,6 +409,13 @@ def slip39_api(ctx):
                     configs.append((secret, groups, gt, e, ext))
     if ctx.quick:
         configs = [c for c in configs if not (c[0] is s32 and c[3] == 1)]
+    # every even secret length 16..64: the share value's zero padding takes every width 0..8 bits (2, 4, 6, 8 recur every 10 bytes)
+    for n in range(16, 66, 2):
+        if n in (16, 32):
+            continue
+        sec = hashlib.sha512(b"len%d" % n).digest()[:n] if n <= 64 else None
+        for groups, gt in ((((1, 1),), 1), (((2, 3),), 1)):
+            configs.append((sec, groups, gt, 0, n % 4 == 0))
     return ctx.pmap(_slip_api_shard, [([c], ctx.seed) for c in configs])
 
 
